@@ -103,6 +103,13 @@ CLAIMED.update({
    note="akita's engines are outside /repo; the parallel engine and float summation order inside kernels are not decided; one defect (map-order iteration in page migration) found and repaired by a fix: commit"),
 })
 
+CLAIMED.update({
+ "C14": dict(
+   text="Structural clauses of execution ordering in the timing compute unit and the emulator's barrier resolution, on all paths: completion only with both outstanding-access counters at zero, the scalar/LGKM and vector/VM comparison pairs of the wait count, ownership and last-piece guarding of the counters, accepted-state sets of the barrier predicates evaluated as decision tables and compared with {at barrier, completed}, barrier release only under those predicates, work-group completion message only when all other wavefronts completed with resources released only after a successful send. The issue-trace ordering under all latencies is a schedule property and is not decided.",
+   ref="4/C14", technique="dominance cuts with phi-fact pruning (GUARD), decision-table evaluation of sibling predicates (SIBLINGS), who-may-write, SSA path analysis (SEND-DISCIPLINE)",
+   note="scoreboard hazards, SIMM16 field ranges and memory-latency schedules are not decided; one defect (completed wavefronts not counted as arrived at a barrier, both modes) found and repaired by a fix: commit"),
+})
+
 PENDING = {}
 
 NOT_APPLICABLE = {
